@@ -53,9 +53,25 @@ def run(ctx):
                         beyond=rng.choice([0, 0.1, 0.3]), coalesce=rng.choice([0, 0.1]))
         s['tag'] = 'win%d' % i
         scs.append(s)
+    # bulk data in BOTH directions with loss on one of them: the endpoint that holds out-of-order data sends full-sized data
+    # segments that also carry SACK blocks (and timestamps): "nor a segment larger than the path MTU allows" with the largest
+    # option area in use
+    for k in range(ctx.pick(6, 30)):
+        mtu = [576, 1500, 200, 300, 1280, 100][k % 6]
+        v = 6 if mtu == 1280 else 4
+        tot = 40 * (mtu - 40)
+        lossy = ('b2a', 'a2b')[k % 2]
+        sc = dict(v=v, mtu=mtu, sack=True, cc='', deadline_ms=45000, seed=7000 + k, flags={}, tag='bidi-bulk-%d-mtu%d-%s' % (k, mtu, lossy),
+                  a=dict(writes=[tot], shutdown=True), b=dict(writes=[tot], shutdown=True), a2b=dict(), b2a=dict())
+        sc[lossy] = dict(rules=[dict(kind='data', nth=n, act='drop') for n in sorted(rng.sample(range(2, 30), 3))])
+        scs.append(sc)
     segs, stats, rep = tcplib.run_pair(ctx, drv, scs, ['C04'], 'c04', what='TCP window/MSS behaviour', classify=tcplib.classify_all)
     ctx.extra.update(stats)
     ctx.extra['zero_window_advertisements'] = sum(1 for s in segs for e in s if e['ev'] == 'emit' and e.get('wnd') == 0 and 'S' not in e.get('flags', '') and 'R' not in e.get('flags', ''))
+    nsack = sum(1 for sg in segs for e in sg if e['ev'] == 'emit' and e.get('len', 0) > 0 and e.get('sack'))
+    ctx.extra['data_segments_carrying_sack_blocks'] = nsack
+    if nsack == 0:
+        raise vlib.Inconclusive('vacuity: no data segment carried SACK blocks')
     ctx.sample(dict(kind='scenario', scenario=scs[0]))
     ctx.sample(dict(kind='trace', events=tcplib.sample_trace(segs[0], 12)))
     # ---- binding self-test: shrink a recorded window so that later data lies beyond the edge; move an advertised edge left
